@@ -67,17 +67,27 @@ def main() -> None:
         g = MacroGen(r, Cfg(max_depth=2, max_block=2, max_routines=2, loops=r.random() < 0.5, terminator_prob=0.6))
         progs.append((f"macro:{run.seed}:{i}", g.macro_program(1)["flat"]))
     texts = [print_prog(p) for _, p in progs]
-    results = run_impl([("capture:compile_capture", t) for t in texts])
-    idx = [i for i, r in enumerate(results) if "strip_in" in r.get("cap", {})]
-    models = run_driver([[A("passes"), pops_sexp(results[i]["cap"]["strip_in"])] for i in idx])
+    # in portions: the captured op lists of all passes and the model's answers are dropped once compared
+    results: list = []
     diverged = None
     bad: list[tuple[int, str]] = []
-    for i, m in zip(idx, models):
-        run.case(progs[i][1], nontrivial=prog_size(progs[i][1]) >= 2)
-        why = compare(results[i], m)
-        run.count("pass-correspondence:" + ("ok" if why is None else "DIFF"))
-        if why is not None and diverged is None:
-            diverged = (i, why)
+    PORTION = 2000
+    for a in range(0, len(texts), PORTION):
+        part = run_impl([("capture:compile_capture", t) for t in texts[a:a + PORTION]])
+        idx = [j for j, r in enumerate(part) if "strip_in" in r.get("cap", {})]
+        models = run_driver([[A("passes"), pops_sexp(part[j]["cap"]["strip_in"])] for j in idx])
+        for j, m in zip(idx, models):
+            i = a + j
+            run.case(progs[i][1], nontrivial=prog_size(progs[i][1]) >= 2)
+            why = compare(part[j], m)
+            run.count("pass-correspondence:" + ("ok" if why is None else "DIFF"))
+            if why is not None and diverged is None:
+                diverged = (i, why)
+        for r in part:
+            r.pop("cap", None)
+            r.pop("sm", None)
+        del models
+        results.extend(part)
     ok_idx = [i for i, r in enumerate(results) if r["ok"]]
     closed = run_driver([[A("closed"), program_sexp(results[i]["ops"])] for i in ok_idx])
     for i, c in zip(ok_idx, closed):
